@@ -1,3 +1,40 @@
-/- C02 — property theorems only (helper lemmas live in `Rooc/Proofs`). -/
+/-
+C02 — Linearization preserves objective values and optima.  PROPERTY THEOREMS ONLY.
+Same setting as `Rooc/Props/C01.lean` (see its header for the vocabulary and the proof stages).
+
+FULL TARGET (stated here; only the parts that are PROVED appear below as declarations): under the hypotheses of
+`c01`, for every source-feasible ρ with `eval ρ m.objective = some v`:
+  * min : every extension ρ' of ρ (agreeing on the declared used variables) with `linFeasible lm ρ'` has
+          `linObjective lm ρ' = some w` with `v ≤ w`, and some such extension attains `w = v`;
+  * max : dually (`w ≤ v`, attained);   * satisfy : every feasible extension has `w = v`.
+Consequently equal optimal values / optimal projections / infeasible-unbounded status.
+-/
+import Rooc.Proofs.LinAssemble
 namespace Rooc.Props.C02
+open Rooc Rooc.Lin Rooc.Sem Rooc.LinP
+
+variable {K : Type} [Field K] [LinearOrder K] [IsStrictOrderedRing K] [FloorRing K]
+
+/-- **C02 on purely affine models**: the linear objective (with its offset) IS the source objective, at every
+assignment at which the source objective is defined (no auxiliaries, so nothing to optimise over). -/
+theorem c02_affine (hfl : FlattenSound K) (hsi : SimplifySoundArith K)
+    {m : Model (Ext K)} {b : BoundsMap (Ext K)} {d : List (DomVar (Ext K))} {lm : LinModel (Ext K)}
+    (h : linearizeWith m b d = .ok lm) (haff : AffineModel m d) :
+    lm.optType = m.optType ∧
+    ∀ (ρ : String → K) (v : K), eval ρ m.objective = some v → linObjective lm ρ = some v := by
+  refine ⟨?_, fun ρ v hv => affine_objective hfl hsi haff h ρ v hv⟩
+  obtain ⟨_, _, h1, _⟩ := linearizeWith_affine hfl hsi haff h
+  exact h1
+
+/-- corollary in the shape of the full target: on an affine model every feasible "extension" has exactly the
+source objective value (so the best one does, in either direction). -/
+theorem c02_affine_best (hfl : FlattenSound K) (hsi : SimplifySoundArith K)
+    {m : Model (Ext K)} {b : BoundsMap (Ext K)} {d : List (DomVar (Ext K))} {lm : LinModel (Ext K)}
+    (h : linearizeWith m b d = .ok lm) (haff : AffineModel m d)
+    (ρ ρ' : String → K) (hag : ∀ v, inScope d v → ρ' v = ρ v) (v : K) (hv : eval ρ m.objective = some v) :
+    linObjective lm ρ' = some v := by
+  apply (c02_affine hfl hsi h haff).2
+  rw [eval_congr m.objective (fun x hx => hag x (haff.obj.2 x hx))]
+  exact hv
+
 end Rooc.Props.C02
